@@ -511,8 +511,8 @@ package rux
 // registration API; every such method keeps the group prefix, keeps the global middleware list and
 // only extends the group middleware list (Router.Use inside a group, nested Group calls restore).
 //@ functype (*Router).Group:register(self)
-//@   requires[C12] prefix_in_effect: r.currentGroupPrefix == entry(r.currentGroupPrefix) + fp(prefix, r.strictLastSlash)
-//@   requires[C12] middleware_in_effect: len(r.currentGroupHandlers) == entry(len(r.currentGroupHandlers)) + len(middles)
+//@   requires[C12, C04] prefix_in_effect: r.currentGroupPrefix == entry(r.currentGroupPrefix) + fp(prefix, r.strictLastSlash)
+//@   requires[C12, C04] middleware_in_effect: len(r.currentGroupHandlers) == entry(len(r.currentGroupHandlers)) + len(middles)
 //@       && (forall i int :: 0 <= i && i < entry(len(r.currentGroupHandlers)) ==> r.currentGroupHandlers[i] == entry(r.currentGroupHandlers[i]))
 //@       && (forall i int :: 0 <= i && i < len(middles) ==> r.currentGroupHandlers[entry(len(r.currentGroupHandlers)) + i] == middles[i])
 //@   modifies r.currentGroupHandlers, allelems([]HandlerFunc), allelems([]*Route), allelems([]string), allfields(Route), r.counter, r.cachedRoutes
@@ -626,7 +626,7 @@ package rux
 //@       && (len(r.noRoute) == 0 ==> len(ctx.handlers) == len(r.handlers) + 1 && ctx.handlers[len(r.handlers)] == internal404Handler)
 //@   ensures[C04] everyone_ran_unless_aborted_or_panicked: hookCalls(ctx) == 0 ==> ctx.index >= 63 || started(ctx) == len(ctx.handlers)
 //@   ensures[C09] hook_at_most_once: hookCalls(ctx) <= 1 && (r.OnPanic == nil ==> hookCalls(ctx) == 0)
-//@   ensures[C08] committed_once: wInv(&ctx.writer) && ctx.writer.length >= 0 && hdrCalls(ctx.writer.Writer) == 1
+//@   ensures[C08, C09] committed_once: wInv(&ctx.writer) && ctx.writer.length >= 0 && hdrCalls(ctx.writer.Writer) == 1
 
 //@ func (*Router).ServeHTTP [C03, C08, C09, C10]
 //@   requires freshWriter(res) && req != nil && req.URL != nil && fallbackChains(r)
